@@ -105,6 +105,19 @@ def replay(ob):
             if 1.5 in sp or (1, 2) in sp:
                 return {'reproduced': True, 'detail': 'an object without a space is a member of %r' % (sp,)}
         return {'reproduced': False, 'detail': 'membership coherent on the native pool'}
+    if ob['unit'].startswith('derived/byaxis_in'):
+        odl, np = _odl()
+        for dt in ('float32', 'float64', 'complex64', 'complex128'):
+            for exponent in (2.0, 1.0):
+                s0 = odl.uniform_discr([0, 0, 0], [1, 2, 3], (3, 4, 5), dtype=dt, exponent=exponent)
+                for idx in (0, 2, slice(0, 2), [1, 0], [2]):
+                    r = s0.byaxis_in[idx]
+                    want_shape = tuple(np.empty(s0.shape)[0:0].shape) if False else (tuple(s0.shape[i] for i in idx) if isinstance(idx, list) else (s0.shape[idx] if isinstance(idx, slice) else (s0.shape[idx],)))
+                    if r.dtype != s0.dtype or r.exponent != s0.exponent or r.shape != want_shape:
+                        return {'reproduced': True, 'detail': '%r.byaxis_in[%r]: dtype %s, exponent %r, shape %r; expected %s, %r, %r' % (s0, idx, r.dtype, r.exponent, r.shape, s0.dtype, s0.exponent, want_shape)}
+                    if exponent == 2.0 and abs(r.weighting.const - r.partition.cell_volume) > 1e-12:
+                        return {'reproduced': True, 'detail': '%r.byaxis_in[%r]: weighting %r, cell volume of the sub-partition %r' % (s0, idx, r.weighting.const, r.partition.cell_volume)}
+        return {'reproduced': False, 'detail': 'byaxis_in keeps dtype / exponent and re-weights by the cell volume on the native pool'}
     if ob['unit'].startswith('derived/pspace-element'):
         odl, np = _odl()
         cfg = ob.get('config') or {}
